@@ -146,7 +146,7 @@ func Exec(property string, fn Scenario, t *Tape, env *Env) (res *Result) {
 					panic(p)
 				}
 				msg := fmt.Sprint(p)
-				r.Fail(property, "panic", "panic/"+firstLine(msg), "unhandled panic: %s", msg)
+				r.Fail(property, "panic", "panic/"+noDigits(firstLine(msg)), "unhandled panic: %s", msg)
 			}
 		}()
 		fn(r)
@@ -169,4 +169,22 @@ func firstLine(s string) string {
 		s = s[:80]
 	}
 	return s
+}
+
+// noDigits replaces every run of digits by N so that signatures do not depend on indexes and lengths.
+func noDigits(s string) string {
+	var b strings.Builder
+	prev := false
+	for _, r := range s {
+		if r >= '0' && r <= '9' {
+			if !prev {
+				b.WriteByte('N')
+			}
+			prev = true
+			continue
+		}
+		prev = false
+		b.WriteRune(r)
+	}
+	return b.String()
 }
